@@ -270,7 +270,7 @@ func pairMenu() []pa.Token {
 		"1", "+1", "-1", "1.5", ".5", "1e3", "0",
 		"1%", "-1%", "1px", "1e", "1E", "1e-", "1E-2", "1\\65 3", "1-", "1--", "1u",
 		"'s'", "\"\"", "url(x)", "url()", "url('x')", "U+1", "U+1-2", "U+1?",
-		"f(", "-f(", "u(", "url((", "(", "[", "{", "(a)", "f(1)",
+		"f(", "-f(", "--f(", "--x", "u(", "url((", "(", "[", "{", "(a)", "f(1)",
 		" ", "\n", "/**/",
 		"+", ".", "/", "*", "<", ">", "!", "#", "@", "%", "?", "=", "|", "~", "^", "$", ":", ";", ",", "\\\n",
 		"<!--", "-->", "~=", "|=", "^=", "$=", "*=", "||", "&",
@@ -298,15 +298,10 @@ func (c *check) runPairs(first int64, ctx *engine.Ctx) {
 	}
 }
 
+// tripleMenu is the whole pair menu: three-token fusions (such as "<" "!" "--x", read back as the CDO
+// token) involve kinds that no reduced menu can be known to contain.
 func tripleMenu() []pa.Token {
-	srcs := []string{"a", "-", "--", "--x", "-a", "u", "e", "1", "+1", "1e", "1px", "#a", "@a", "<", "!", ">", "+", ".", "/", "*", "#", "@", "|", "=", "?", "%", "U+1", "f(", "(", " "}
-	var out []pa.Token
-	for _, s := range srcs {
-		if t := safeTokenize(s); len(t) == 1 {
-			out = append(out, t[0])
-		}
-	}
-	return out
+	return pairMenu()
 }
 
 func (c *check) runTriples(first int64, ctx *engine.Ctx) {
